@@ -730,7 +730,7 @@ def _indexed_result_to_unpacking(tree: ast.Module) -> None:
                                                   for j in idxs], ctx=ast.Store())]
 
 
-def _index_loops_to_iteration(tree: ast.Module, only_plain_python: bool = True) -> None:
+def _index_loops_to_iteration(tree: ast.Module, only_plain_python: bool = False) -> None:
     """`for i in range(len(A)):` whose body begins with  `x = A[i]` (and `y = B[i]` ..)   ->   `for x in A` /
     `for x, y in zip(A, B)`, or with `enumerate` when `i` is used for anything else.  The element names must be assigned
     nowhere else in the loop and the sequences must not be re-bound in it.  (The sequences of a working program have equal
@@ -761,6 +761,8 @@ def _index_loops_to_iteration(tree: ast.Module, only_plain_python: bool = True) 
                     heads.append(st)
                 else:
                     break
+            if not heads and is_njit(fn):
+                continue                   # kernels: only the explicit `x = A[i]` spelling is rewritten
             if not heads:
                 # no element statement: `A[i]` is used in place.  Give the element a name when every use of the index is such a
                 # subscript of A or a plain read of i
